@@ -173,6 +173,11 @@ class Lib:
     def call_method(self, ex, st, obj, name, args, kwargs, n):
         if isinstance(obj, Ref):
             o = st.heap[obj.oid]
+            hk0 = self.hooks.get('method_kind:' + o.kind)
+            if hk0:
+                r = hk0(ex, st, obj, name, args, kwargs, n)
+                if r is not NOTFOUND:
+                    return r
             h = self.methods.get((o.kind, name))
             if h is not None:
                 return h(ex, st, obj, args, kwargs, n)
@@ -233,6 +238,9 @@ class Lib:
 
     def inplace(self, ex, st, op, cur, v, s):
         o = st.heap[cur.oid]
+        hk0 = self.hooks.get('inplace_kind:' + o.kind)
+        if hk0:
+            return hk0(ex, st, op, cur, v, s)
         if o.kind == 'matrix':
             self.on_mutate(ex, st, cur, 'in-place %s' % op, s)
             o.f['sym'] = z3.IntVal(0)
@@ -259,6 +267,9 @@ class Lib:
 
     def getitem(self, ex, st, ref, idx, n):
         o = st.heap[ref.oid]
+        hk0 = self.hooks.get('getitem_kind:' + o.kind)
+        if hk0:
+            return hk0(ex, st, ref, idx, n)
         if o.kind == 'matrix':
             return self.matrix_getitem(ex, st, ref, idx, n)
         hk = self.hooks.get('instance_getitem')
@@ -360,6 +371,9 @@ class Lib:
 
     def setitem(self, ex, st, base, idx, v, s):
         o = st.heap[base.oid]
+        hk0 = self.hooks.get('setitem_kind:' + o.kind)
+        if hk0:
+            return hk0(ex, st, base, idx, v, s)
         if o.kind == 'matrix':
             self.on_mutate(ex, st, base, 'indexed assignment', s)
             o.f['sym'] = z3.IntVal(0)
@@ -385,6 +399,9 @@ class Lib:
         if isinstance(t, ast.Subscript):
             base = ex.ev(t.value, st, fid)
             idx = ex.ev_index(t.slice, st, fid)
+            hk0 = self.hooks.get('delitem')
+            if hk0 and hk0(ex, st, base, idx, t):
+                return
             if isinstance(base, Ref) and st.heap[base.oid].kind == 'dict':
                 o = st.heap[base.oid]
                 c, k = const_of(idx)
@@ -673,6 +690,8 @@ class Lib:
         return Unknown('loop-assigned ' + nm)
 
     def loop_by_invariant(self, ex, st, s, fid, it):
+        if hasattr(it, 'abs_loop'):
+            return it.abs_loop(ex, st, s, fid)
         if not (isinstance(it, Ref) and st.heap[it.oid].kind in (
                 'list', 'range', 'dict')):
             ex.note(st, 'loop over unmodelled iterable at line %d' % s.lineno)
